@@ -29,6 +29,7 @@ func init() {
 
 type tryProg struct {
 	Late    bool   `json:"late,omitempty"` // finally fails at once; fail/success = [gate; pip:run; end], gate opened after finally failed
+	NoBind  bool   `json:"nobind,omitempty"` // no task manager is bound to the surrounding scope beforehand: pip:try is the first pipeline command there
 	Body    *gTask `json:"body"`
 	Finally *gTask `json:"finally,omitempty"`
 	Fail    *gTask `json:"fail,omitempty"`
@@ -67,23 +68,26 @@ func genTry(g *c14gen) *tryProg {
 	mk := func(local string, failPct int, budget int) *gTask {
 		g.uid++
 		g.budget = budget
-		t := &gTask{Local: local, Full: "T:" + local, UID: fmt.Sprintf("u%d", g.uid)}
+		t := &gTask{Local: local, Full: g.tryPrefix + "T:" + local, UID: fmt.Sprintf("u%d", g.uid)}
 		t.Num = g.names.num(t.Full)
 		g.body(t, 1, g.rng.Chance(failPct))
 		return t
 	}
 	p := &tryProg{}
-	g.fork = g.rng.Chance(35)
+	g.fork = !g.plain && g.rng.Chance(35)
 	p.Body = mk("body", 40, 3)
 	g.fork = false
 	p.Body.Ctx = 50
 	p.Body.walk(func(x *gTask) { x.Ctx = 50 })
-	if g.rng.Chance(20) {
+	if !g.plain {
+		p.NoBind = g.rng.Chance(30)
+	}
+	if !g.plain && g.rng.Chance(20) {
 		// a handler that still has a nested pip:run to issue when its sibling has already failed and finished
 		p.Late = true
 		build := func(local string, kinds ...string) *gTask {
 			g.uid++
-			t := &gTask{Local: local, Full: "T:" + local, UID: fmt.Sprintf("u%d", g.uid)}
+			t := &gTask{Local: local, Full: g.tryPrefix + "T:" + local, UID: fmt.Sprintf("u%d", g.uid)}
 			t.Num = g.names.num(t.Full)
 			for _, k := range kinds {
 				c := &gCmd{Kind: k}
@@ -141,8 +145,12 @@ func (p *tryProg) command(epoch string) string {
 func runTry(pa *pipApp, rng *RNG, epoch string, p *tryProg, pre func(root app.Scope)) (ob c16obs) {
 	pa.log.reset(epoch)
 	root := scope.New(scope.Params{})
-	mgr, err := pa.tasksUnit.FromScope(root)
-	must(err)
+	var mgr pipservices.TasksManager
+	var err error
+	if !p.NoBind || pre != nil {
+		mgr, err = pa.tasksUnit.FromScope(root)
+		must(err)
+	}
 	if pre != nil {
 		pre(root)
 	}
@@ -214,6 +222,11 @@ func runTry(pa *pipApp, rng *RNG, epoch string, p *tryProg, pre func(root app.Sc
 		return termexec.RunString(termexec.NewRunCtx(termexec.RunCtxParams{Application: pa.mapp, Ctx: ctx, Commands: pa.mapp.Terminal()}), p.command(epoch))
 	})
 	<-relDone
+	if mgr == nil {
+		// whatever manager pip:try bound (or failed to bind) to the surrounding scope
+		mgr, err = pa.tasksUnit.FromScope(root)
+		must(err)
+	}
 	switch {
 	case h:
 		ob.RunErr = "hang"
@@ -275,10 +288,11 @@ func (l *probeLog) has(kind, id string) bool {
 // subtree analysis of one task from the trace: did it (or something it spawned) fail; first/last seq
 type subRes struct {
 	acceptErr   string // a nested submission was accepted/refused against the rule (valid names => accepted)
-	complete    bool // executed all its commands, or stopped at its own failing command / failed nested task
+	complete    bool // executed all its commands, or stopped at its own failing command / failed nested task; the same for every task it spawned
 	failed      bool
 	first, last int
 	ran         bool
+	silent      bool // no event, and none expected: the first command is an unknown command / an unparsable line
 	seqErr      string
 }
 
@@ -295,12 +309,16 @@ func analyse(t *gTask, evs map[string][]pEvent) (r subRes) {
 	}
 	pos := 0
 	stopped := false
+	cut := false // a task spawned here (synchronously) was cut short
 	sibs := map[string]bool{}
 	for k := 0; k < len(l); k++ {
 		e := l[k]
 		_, i := parseID(e.ID)
 		r.ran = true
 		upd(e.Seq)
+		if !stopped && pos < len(t.Body) && (t.Body[pos].Kind == "bad" || t.Body[pos].Kind == "badq") {
+			r.failed, stopped = true, true // fails without a probe event; nothing of this body may follow
+		}
 		if stopped {
 			r.seqErr = fmt.Sprintf("%s: event %s %d after a failed command", t.Full, e.Kind, i)
 			return
@@ -366,6 +384,9 @@ func analyse(t *gTask, evs map[string][]pEvent) (r subRes) {
 				if cr.acceptErr != "" && r.acceptErr == "" {
 					r.acceptErr = cr.acceptErr
 				}
+				if !cr.complete {
+					cut = true
+				}
 				if cr.first >= 0 {
 					upd(cr.first)
 					upd(cr.last)
@@ -381,7 +402,11 @@ func analyse(t *gTask, evs map[string][]pEvent) (r subRes) {
 		}
 		pos++
 	}
-	r.complete = stopped || pos == len(t.Body)
+	if !stopped && pos < len(t.Body) && (t.Body[pos].Kind == "bad" || t.Body[pos].Kind == "badq") {
+		r.failed, stopped = true, true
+		r.silent = !r.ran // nothing to see of it: its first command fails before any probe
+	}
+	r.complete = (stopped || pos == len(t.Body)) && !cut
 	return
 }
 
@@ -418,15 +443,17 @@ func c16oracles(o *Out, cs *c16case) {
 	if b.acceptErr != "" {
 		fail("nested_submission", b.acceptErr)
 	}
-	if !b.ran {
+	if !b.ran && !(b.silent && reg[p.Body.Full]) {
 		fail("body_runs", "the body executed no command")
+	} else if b.seqErr == "" && !b.complete {
+		fail("body_runs", "the body (or a task it spawned) was cut short: it executed only part of its commands although none of them failed")
 	}
 	// which handlers provably failed (own failing command, rejected or failed nested task)
 	res := map[*gTask]subRes{}
 	handlerFailed := false
 	for _, h := range p.handlers() {
 		res[h] = analyse(h, evs)
-		if res[h].failed {
+		if res[h].failed && (!res[h].silent || reg[h.Full]) {
 			handlerFailed = true
 		}
 	}
@@ -435,6 +462,9 @@ func c16oracles(o *Out, cs *c16case) {
 			return
 		}
 		r := res[h]
+		if r.silent && reg[h.Full] {
+			r.ran = true // registered, and its first command fails without a probe event
+		}
 		if r.seqErr != "" {
 			fail("sequential_body", r.seqErr)
 		}
@@ -453,7 +483,7 @@ func c16oracles(o *Out, cs *c16case) {
 		if reg[h.Full] != want {
 			fail(name, fmt.Sprintf("handler %s registered=%v, expected %v (body failed=%v)", h.Local, reg[h.Full], want, b.failed))
 		}
-		if r.ran && r.first < b.last {
+		if r.ran && r.first >= 0 && r.first < b.last {
 			fail("after_body", fmt.Sprintf("handler %s began (seq %d) before the body and the tasks it spawned ended (seq %d)", h.Local, r.first, b.last))
 		}
 	}
@@ -470,8 +500,8 @@ func c16oracles(o *Out, cs *c16case) {
 		fail("containment", fmt.Sprintf("pip:try returned %s but the surrounding scope has errors=%v", ob.RunErr, ob.SurFailed))
 	}
 	// body's own error state stays in its separated scope
-	if reg["T:body"] && ob.Errors["T:body"] != b.failed {
-		fail("body_outcome", fmt.Sprintf("body task has errors=%v, trace says failed=%v", ob.Errors["T:body"], b.failed))
+	if reg[p.Body.Full] && ob.Errors[p.Body.Full] != b.failed {
+		fail("body_outcome", fmt.Sprintf("body task has errors=%v, trace says failed=%v", ob.Errors[p.Body.Full], b.failed))
 	}
 }
 
@@ -576,13 +606,18 @@ func runC16(o *Out, rng *RNG, tier string, replay string) {
 	o.ShardSize = 60
 	o.Rule = "generated try blocks: body of 1-4 probe commands (begin/end/gate/fail, nested pip:run up to depth 2 whose tasks succeed or fail, ~40% of the bodies fail), " +
 		"every subset of {finally, fail, success} (each defined with probability 0.65), handler bodies of 1-4 commands (20% failing, nested pip:run); " +
-		"run through `pip:try` via termexec.RunString on a fresh scope with its own task manager. Non-trivial: at least one handler defined and at least 3 probe events; distinct by program+trace."
+		"run through `pip:try` via termexec.RunString on a fresh scope with its own task manager (30% of the blocks: NO manager bound beforehand, pip:try is the first pipeline command on that scope); " +
+		"scripts written with blank lines, whitespace-only lines, leading / trailing blanks; the body and every task spawned synchronously must execute all their commands unless one fails; " +
+		"30 further blocks (oracles only) whose failing commands may be an unknown command name or an unparsable last line; " +
+		"40 pairs of try blocks of the SAME name inside two concurrent pipeline tasks (begin; pip:try; end - the surrounding scope is the task's command scope, oracles only). Non-trivial: at least one handler defined and at least 3 probe events; distinct by program+trace."
 	pa, err := newPipApp()
 	must(err)
-	n := 200
+	n, extra, nHosts := 200, 30, 40
 	if tier == "thorough" {
-		n = 5000
+		n, extra, nHosts = 5000, 750, 1000
 	}
+	nMain := n // blocks nMain .. nMain+extra-1: failing commands may be unknown commands / unparsable lines (oracles only)
+	n += extra // blocks n .. n+nHosts-1: pairs of try blocks inside two concurrent pipeline tasks (oracles only)
 	only := -1
 	if replay != "" {
 		var rp struct {
@@ -594,7 +629,6 @@ func runC16(o *Out, rng *RNG, tier string, replay string) {
 		must(e)
 		must(json.Unmarshal(b, &rp))
 		only = rp.Case.Index
-		n = only + 1
 	}
 	// the rejected-handler probe, in a child process (the code before b43446f panics in a goroutine)
 	crashed := false
@@ -627,13 +661,44 @@ func runC16(o *Out, rng *RNG, tier string, replay string) {
 	}
 
 	seed := rng.Next()
-	for idx := 0; idx < n; idx++ {
+	for idx := 0; idx < n+nHosts; idx++ {
 		crng := rng.Fork()
 		if only >= 0 && idx != only {
+			if idx > only {
+				break
+			}
 			continue
 		}
 		names := &nameTable{m: map[string]int{}}
-		g := &c14gen{rng: crng, names: names}
+		g := &c14gen{rng: crng, names: names, pad: true, bad: idx >= nMain && idx < n}
+		if idx >= n {
+			hosts := genHosts(g)
+			obs := runHosts(pa, crng, fmt.Sprintf("y%d", idx), hosts)
+			for k, h := range hosts {
+				cs := &c16case{Seed: seed, Index: idx, Prog: h.Prog, Obs: obs[k]}
+				before := o.Stats["l2_failures"]
+				c16oracles(o, cs)
+				if o.Stats["l2_failures"] > before {
+					o.Stat("in_task_blocks_failed_" + h.Name)
+				}
+				key, _ := json.Marshal([]interface{}{"host", h.Prog, obs[k].Events})
+				o.CountEval(string(key), len(h.Prog.handlers()) > 0)
+				o.Stat("try_blocks_inside_tasks")
+				if obs[k].SurFailed {
+					o.Stat("in_task_surrounding_failed")
+				}
+				if obs[k].Errors[h.Prog.Body.Full] {
+					o.Stat("in_task_body_failed")
+				}
+				if obs[k].RunErr == "hang" {
+					o.Stat("run_hang")
+				}
+			}
+			if o.Stats["run_hang"] >= 3 {
+				break
+			}
+			continue
+		}
 		p := genTry(g)
 		ob := runTry(pa, crng, fmt.Sprintf("y%d", idx), p, nil)
 		cs := &c16case{Seed: seed, Index: idx, Prog: p, Obs: ob}
@@ -647,7 +712,17 @@ func runC16(o *Out, rng *RNG, tier string, replay string) {
 				}
 			}
 		})
-		if hasFork {
+		hasBad := hasBadKind(append([]*gTask{p.Body}, p.handlers()...))
+		if hasBad {
+			o.Stat("blocks_with_unknown_command_l2_only")
+		}
+		if p.NoBind {
+			o.Stat("blocks_without_manager_bound_beforehand")
+		}
+		if hasBad && !hasFork {
+			// a command that fails without entering a probe has no event the acceptor could replay: oracles only
+			o.CountEval(string(key), len(p.handlers()) > 0)
+		} else if hasFork {
 			// one command that creates two CONCURRENT nested tasks through the Go API is outside the
 			// command language of the model (pip:run is synchronous): property oracles only
 			o.CountEval(string(key), len(p.handlers()) > 0)
@@ -666,7 +741,7 @@ func runC16(o *Out, rng *RNG, tier string, replay string) {
 		if ob.SurFailed {
 			o.Stat("surrounding_failed")
 		}
-		if ob.Errors["T:body"] {
+		if ob.Errors[p.Body.Full] {
 			o.Stat("body_failed")
 		} else {
 			o.Stat("body_ok")
@@ -691,4 +766,123 @@ func runC16(o *Out, rng *RNG, tier string, replay string) {
 		}
 	}
 
+}
+
+// ---------- try blocks inside pipeline tasks
+// Two pipeline tasks h0, h1 (each on its own isolated context, one task manager bound to their common
+// root) run concurrently; the body of each is  begin ; pip:try --name=T ... ; end .  Both blocks have
+// the same name: they differ by the namespace of the task they run in (h0:T:body, h1:T:body, ...).
+// The surrounding scope of a block is the scope of its command inside the task: "failed" is read
+// from the task, "pip:try returned an error" from whether the command after it still ran.
+// Outside the closed model of Model/Try.v (one block, one surrounding context): property oracles only.
+
+type tryHost struct {
+	Name string   `json:"name"`
+	UID  string   `json:"uid"`
+	Prog *tryProg `json:"prog"`
+}
+
+func genHosts(g *c14gen) (hosts []*tryHost) {
+	g.plain = true
+	for k := 0; k < 2; k++ {
+		g.tryPrefix = fmt.Sprintf("h%d:", k)
+		hosts = append(hosts, &tryHost{Name: fmt.Sprintf("h%d", k), UID: fmt.Sprintf("host%d", k), Prog: genTry(g)})
+	}
+	g.tryPrefix, g.plain = "", false
+	return hosts
+}
+
+func (h *tryHost) script(epoch string) string {
+	return fmt.Sprintf("begin %s\n%s\nend %s\n", cmdID(epoch, h.UID, 0), h.Prog.command(epoch), cmdID(epoch, h.UID, 2))
+}
+
+func runHosts(pa *pipApp, rng *RNG, epoch string, hosts []*tryHost) (obs []c16obs) {
+	pa.log.reset(epoch)
+	root := scope.New(scope.Params{})
+	mgr, err := pa.tasksUnit.FromScope(root)
+	must(err)
+	ns := namespaces.NewNamespaces(pipservices.NamasepacesParams{})
+	var gates []string
+	for _, h := range hosts {
+		for _, t := range append([]*gTask{h.Prog.Body}, h.Prog.handlers()...) {
+			t.walk(func(x *gTask) {
+				for i, c := range x.Body {
+					if c.Kind == "gate" {
+						gates = append(gates, cmdID(epoch, x.UID, i))
+					}
+				}
+			})
+		}
+	}
+	for i := len(gates) - 1; i > 0; i-- {
+		j := rng.Intn(i + 1)
+		gates[i], gates[j] = gates[j], gates[i]
+	}
+	relDone := make(chan struct{})
+	go func() {
+		defer close(relDone)
+		for _, g := range gates {
+			time.Sleep(time.Duration(50+rng.Intn(500)) * time.Microsecond)
+			pa.log.release(g)
+		}
+	}()
+	var scopes []app.Scope
+	var ctxs []app.ContextScope
+	submitted := make([]bool, len(hosts))
+	for k, h := range hosts {
+		scp, cs := isoScope(root, h.Name)
+		scopes, ctxs = append(scopes, scp), append(ctxs, cs)
+		script := h.script(epoch)
+		e, p, hg := guarded(10*time.Second, func() error { return pa.runner.Run(pa.pip(scp, ns, h.Name, nil, script)) })
+		submitted[k] = e == nil && !p && !hg
+	}
+	<-relDone
+	_, pn, hang := guarded(6*time.Second, mgr.Wait)
+	var names []string
+	errs := map[string]bool{}
+	if !hang {
+		guarded(3*time.Second, func() error {
+			names = mgr.Names()
+			for _, n := range names {
+				if t, ok := mgr.Get(n); ok {
+					errs[n] = len(t.Errors()) != 0
+				}
+			}
+			return nil
+		})
+	}
+	events, maxIn, gateHang := pa.log.snapshot()
+	appFailed := len(pa.mapp.Scopes().App().Errors()) != 0
+	if !hang {
+		for _, s := range scopes {
+			s := s
+			guarded(2*time.Second, func() error { return s.Close() })
+		}
+		guarded(2*time.Second, func() error { return root.Close() })
+	}
+	for _, c := range ctxs {
+		c.Stop()
+	}
+	for k, h := range hosts {
+		ob := c16obs{Events: events, Names: names, Errors: errs, MaxIn: maxIn, GateHang: gateHang, AppFailed: appFailed}
+		ob.SurFailed = errs[h.Name]
+		postRan := false
+		for _, e := range events {
+			if e.Kind == "E" && e.ID == cmdID(epoch, h.UID, 2) {
+				postRan = true
+			}
+		}
+		switch {
+		case hang:
+			ob.RunErr = "hang"
+		case pn || !submitted[k]:
+			ob.RunErr = "panic"
+		case postRan:
+			ob.RunErr = "ok"
+		default:
+			ob.RunErr = "err"
+		}
+		obs = append(obs, ob)
+	}
+	return obs
 }
